@@ -544,4 +544,102 @@ def gen_sb31_kdf() -> None:
     emit("Sb31Kdf", "\n".join(out) + "\n", meta)
 
 
-GENERATORS = {"CrcTable": gen_crc_table, "SymConsts": gen_sym_consts, "Sb31Kdf": gen_sb31_kdf}
+# ---------------------------------------------------------------------------------------------- Counter constants (phase 3)
+def gen_counter_consts() -> None:
+    """spsdk/crypto/symmetric.py `Counter`: required nonce length, bytes kept as nonce, size of the counter word, the mask applied
+    to `_ctr` in `.value`, default increment, default byte order — each read BY VALUE at its use site; a shape the reader does not
+    recognise falls back to the modelled value (flagged in the meta file, then only correspondence + oracle watch it)."""
+    meta = {"source": SYM + "::Counter", "values": {}, "fallback": {}}
+    model = {"nonceLen": 16, "nonceKeep": 12, "wordBytes": 4, "wordMask": 0xFFFFFFFF, "defaultIncrement": 1, "defaultLittle": True}
+    got = {}
+    try:
+        tree = parse(SYM)
+        menv = ModuleEnv(tree)
+        cls = find_class(tree, "Counter")
+        init, inc, val = find_fun(cls, "__init__"), find_fun(cls, "increment"), find_fun(cls, "value")
+    except (OSError, SyntaxError, AttributeError, TypeError):
+        cls = init = inc = val = None
+
+    def attempt(name, f):
+        try:
+            v = f()
+            if isinstance(v, bool) != isinstance(model[name], bool) or not isinstance(v, int):
+                raise Unknown("not an integer constant")
+            got[name] = v
+        except (Unknown, AttributeError, TypeError, IndexError, StopIteration, ValueError) as exc:
+            got[name] = model[name]
+            meta["fallback"][name] = f"shape not recognised ({exc}); modelled value emitted"
+
+    def nonce_len():
+        for n in ast.walk(init):
+            if isinstance(n, ast.Compare) and len(n.ops) == 1 and isinstance(n.ops[0], (ast.Eq, ast.NotEq)):
+                for a, b in ((n.left, n.comparators[0]), (n.comparators[0], n.left)):
+                    if isinstance(a, ast.Call) and dotted(a.func) == "len" and dotted(a.args[0]) == "nonce":
+                        return ev(b, menv, cls=cls)
+        raise Unknown("no `len(nonce) == N` test")
+
+    def nonce_keep():
+        n_len = got.get("nonceLen", 16)
+        for st in ast.walk(init):
+            if isinstance(st, ast.Assign) and dotted(st.targets[0]) == "self._nonce" and isinstance(st.value, ast.Subscript) \
+                    and dotted(st.value.value) == "nonce" and isinstance(st.value.slice, ast.Slice) and st.value.slice.lower is None \
+                    and st.value.slice.step is None:
+                k = ev(st.value.slice.upper, menv, cls=cls)
+                return k if k >= 0 else n_len + k
+        raise Unknown("no `self._nonce = nonce[:K]`")
+
+    def to_bytes_call():
+        for n in ast.walk(val):
+            if isinstance(n, ast.Call) and isinstance(n.func, ast.Attribute) and n.func.attr == "to_bytes":
+                return n
+        raise Unknown("no to_bytes call in value")
+
+    def word_bytes():
+        c = to_bytes_call()
+        arg = c.args[0] if c.args else next(k.value for k in c.keywords if k.arg == "length")
+        return ev(arg, menv, cls=cls)
+
+    def word_mask():
+        recv = to_bytes_call().func.value
+        if isinstance(recv, ast.BinOp) and isinstance(recv.op, ast.BitAnd):
+            for a, b in ((recv.left, recv.right), (recv.right, recv.left)):
+                if dotted(a) == "self._ctr":
+                    return ev(b, menv, cls=cls)
+        if isinstance(recv, ast.BinOp) and isinstance(recv.op, ast.Mod) and dotted(recv.left) == "self._ctr":
+            return ev(recv.right, menv, cls=cls) - 1         # `% 2**32` is the same residue for Python ints
+        raise Unknown("counter word is not `self._ctr & MASK`")
+
+    def default_increment():
+        args = inc.args
+        names = [a.arg for a in args.args]
+        i = names.index("value") - (len(names) - len(args.defaults))
+        if i < 0:
+            raise Unknown("increment(value) has no default")
+        return ev(args.defaults[i], menv, cls=cls)
+
+    def default_little():
+        args = init.args
+        names = [a.arg for a in args.args]
+        i = names.index("ctr_byteorder_encoding") - (len(names) - len(args.defaults))
+        d = dotted(args.defaults[i]) if i >= 0 else None
+        if d in ("Endianness.LITTLE", "Endianness.BIG"):
+            return d.endswith("LITTLE")
+        raise Unknown("default byte order is not an Endianness member")
+
+    for name, f in (("nonceLen", nonce_len), ("nonceKeep", nonce_keep), ("wordBytes", word_bytes), ("wordMask", word_mask),
+                    ("defaultIncrement", default_increment), ("defaultLittle", default_little)):
+        attempt(name, f)
+    out = ["namespace SpsdkVerif.Generated.CounterConsts", "",
+           "/-- constants of `Counter` (spsdk/crypto/symmetric.py), read from the source -/"]
+    for name in model:
+        v = got[name]
+        if isinstance(v, bool):
+            out.append(f"def {name} : Bool := {'true' if v else 'false'}")
+        else:
+            out.append(f"def {name} : Int := {v}" if v < 0 else f"def {name} : Int := {v}")
+        meta["values"][name] = v
+    out += ["", "end SpsdkVerif.Generated.CounterConsts"]
+    emit("CounterConsts", "\n".join(out) + "\n", meta)
+
+
+GENERATORS = {"CrcTable": gen_crc_table, "SymConsts": gen_sym_consts, "Sb31Kdf": gen_sb31_kdf, "CounterConsts": gen_counter_consts}
